@@ -115,8 +115,35 @@ def run_checks(names, tier, extra_props):
         json.dump(results, open(resp, 'w'), indent=1, sort_keys=True)
 
 
+def confirm(names):
+    """Re-confirm stored changes against the current /repo (after a fix commit moved the code)."""
+    base = os.path.join(HERE, 'seeded')
+    allok = True
+    for name in sorted(os.listdir(base)):
+        d = os.path.join(base, name)
+        if not os.path.isdir(d) or (names and name not in names):
+            continue
+        clean, patched = scratch_copy(), scratch_copy()
+        try:
+            ok, out = apply_patch(patched, os.path.join(d, 'patch.diff'))
+            missing = run_tests(patched) if ok else ['patch does not apply']
+            c0, _ = run_demo(os.path.join(d, 'demo.py'), clean)
+            c1, _ = run_demo(os.path.join(d, 'demo.py'), patched) if ok else (0, '')
+            good = ok and not missing and c0 == 0 and c1 != 0
+            allok &= good
+            print('%-48s %s (applies=%s, stable tests failing=%d, demo clean/changed exit=%d/%d)' % (
+                name, 'confirmed' if good else 'NOT CONFIRMED', ok, len(missing), c0, c1))
+            sys.stdout.flush()
+        finally:
+            shutil.rmtree(clean, ignore_errors=True)
+            shutil.rmtree(patched, ignore_errors=True)
+    return allok
+
+
 if __name__ == '__main__':
     a = sys.argv[1:]
+    if a and a[0] == 'confirm':
+        sys.exit(0 if confirm(a[1:]) else 1)
     if a and a[0] == 'ingest':
         sys.exit(0 if ingest(a[1], a[2], a[3].split(','), a[4] if len(a) > 4 else None) else 1)
     if a and a[0] == 'run':
